@@ -222,8 +222,8 @@ add('k1_handles', 'drain_nth_e8', 'range_nth_h::<E8>(false, false)', props=['C03
 add('k1_handles', 'drain_nth_back_e8', 'range_nth_h::<E8>(false, true)', props=['C03', 'C02', 'C14'], tier='q', kind='bounded', bound=BNTH, attrs=['#[kani::unwind(5)]'], cost=20)
 add('k1_handles', 'splice_nth_e8', 'range_nth_h::<E8>(true, false)', props=['C03', 'C02'], tier='q', kind='bounded', bound=BNTH, attrs=['#[kani::unwind(5)]'], cost=20)
 BPROV = 'at most 2 items remain, n <= 2 (core provided Iterator methods loop over next() / next_back())'
-add('k1_handles', 'iter_provided_e8', 'iter_provided_h::<E8>(false)', props=['C14', 'C13'], tier='q', kind='bounded', bound=BPROV, attrs=['#[kani::unwind(5)]'], cost=20)
-add('k1_handles', 'iter_mut_provided_e8', 'iter_provided_h::<E8>(true)', props=['C14'], tier='q', kind='bounded', bound=BPROV, attrs=['#[kani::unwind(5)]'], cost=20)
+add('k1_handles', 'iter_provided_e8', 'iter_provided_h::<E8>(false)', props=['C14', 'C13', 'C01'], tier='q', kind='bounded', bound=BPROV, attrs=['#[kani::unwind(5)]'], cost=20)
+add('k1_handles', 'iter_mut_provided_e8', 'iter_provided_h::<E8>(true)', props=['C14', 'C01'], tier='q', kind='bounded', bound=BPROV, attrs=['#[kani::unwind(5)]'], cost=20)
 add('k1_handles', 'into_iter_e8', 'into_iter_h::<E8>()', props=['C14', 'C13'], tier='q', cost=10, macro='p')
 add('k1_handles', 'into_iter_e3', 'into_iter_h::<E3>()', props=['C14'], tier='t', cost=60, macro='p')
 add('k1_handles', 'drain_iter_e3', 'range_iter_h::<E3>(false, false)', props=['C14'], tier='t', cost=100)
@@ -277,7 +277,7 @@ add('k1_rawparts', 'rawparts_empty_a64', 'rawparts_empty_h::<A64>()', props=['C1
 HEAP_T = ['e8', 'z0', 'e3', 'e12', 'e16', 'a64', 'e160', 'e1']
 for sz in HEAP_T:
     q = sz in ('e8', 'z0', 'e3', 'a64')
-    add('k1_heap', 'heap_protocol_' + sz, 'heap_protocol_h::<%s>()' % TY[sz], props=['C18', 'C10', 'C12'], tier='q' if q else 't', cost=20, macro='ha')
+    add('k1_heap', 'heap_protocol_' + sz, 'heap_protocol_h::<%s>()' % TY[sz], props=['C18', 'C10', 'C12', 'C01', 'C05'], tier='q' if q else 't', cost=20, macro='ha')
     add('k1_heap', 'heap_expand_' + sz, 'heap_expand_h::<%s>()' % TY[sz], props=['C18', 'C10'], tier='q' if sz in ('e8', 'e3') else 't', cost=20, macro='ha')
     add('k1_heap', 'heap_expand_exact_' + sz, 'heap_expand_exact_h::<%s>()' % TY[sz], props=['C18', 'C10', 'C12'], tier='q' if sz in ('e8', 'a64', 'z0') else 't', cost=20, macro='ha')
     add('k1_heap', 'heap_with_size_' + sz, 'heap_with_size_h::<%s>()' % TY[sz], props=['C18', 'C10'], tier='q' if sz in ('e8', 'z0') else 't', cost=5, macro='ha')
@@ -348,6 +348,9 @@ BINL = 'one backend instance each (capacity 2), every length 0..=2 of it, real m
 add('k1_views', 'inline_views_stack10_u32', 'inline_views_h::<Stack<10>, u32, 2>()', props=['C12', 'C13', 'C04', 'C11'], tier='q', kind='bounded', bound=BINL, attrs=['#[kani::unwind(6)]'], flags=['nolc'], cost=20, macro='p')
 add('k1_views', 'inline_views_stackn_2_24_u32', 'inline_views_h::<StackN<2, 24>, u32, 2>()', props=['C12', 'C13', 'C04', 'C11'], tier='q', kind='bounded', bound=BINL, attrs=['#[kani::unwind(6)]'], flags=['nolc'], cost=20, macro='p')
 add('k1_views', 'inline_views_stack7_b3', 'inline_views_h::<Stack<7>, [u8; 3], 2>()', props=['C12', 'C13'], tier='t', kind='bounded', bound=BINL, attrs=['#[kani::unwind(6)]'], flags=['nolc'], cost=20, macro='p')
+INL_PANIC = [r"Can't change capacity", r'as mem::Mem>::expand']
+add('k1_views', 'inline_overflow_stackn_1_16_u32', 'inline_overflow_h::<StackN<1, 16>, u32, 1>()', props=['C11', 'C05'], tier='q', kind='panic', attrs=['#[kani::should_panic]', '#[kani::unwind(6)]'], allow=INL_PANIC, flags=['nolc'], cost=20, macro='p')
+add('k1_views', 'inline_overflow_stack10_u32', 'inline_overflow_h::<Stack<10>, u32, 2>()', props=['C11'], tier='q', kind='panic', attrs=['#[kani::should_panic]', '#[kani::unwind(6)]'], allow=INL_PANIC, flags=['nolc'], cost=20, macro='p')
 HK = ['H_ELEM_MUT', 'H_TEMP', 'H_WRAPPER', 'H_RAW']
 BSWAP = 'vectors of 3 u64 elements on real Stack<32> memory; the swapped values and indices are fully symbolic'
 for a in range(4):
@@ -376,7 +379,7 @@ for n in (1, 3, 8, 24):
         attrs=['#[kani::unwind(10)]'], flags=['nolc'], cost=30, macro='p')
 add('k1_loops', 'drop_closure_unbounded', 'drop_closure_unbounded_h()', props=['C03', 'C05'], tier='q', cost=5, macro='p', attrs=['#[kani::unwind(4)]'])
 add('k1_loops', 'clone_fn_unbounded', 'clone_fn_unbounded_h()', props=['C08', 'C03', 'C05'], tier='q', cost=5, macro='p', attrs=['#[kani::unwind(4)]'])
-add('k1_loops', 'clone_from_stack', 'clone_from_h()', props=['C08'], tier='q', kind='bounded', bound='real Stack<64> vectors of two 8-byte element types, lengths 0..=2', attrs=['#[kani::unwind(6)]'], flags=['nolc'], cost=30, macro='p')
+add('k1_loops', 'clone_from_stack', 'clone_from_h()', props=['C08', 'C04', 'C11', 'C12'], tier='q', kind='bounded', bound='real Stack<16> vectors (capacity 2) of two 8-byte element types, lengths 0..=2', attrs=['#[kani::unwind(6)]'], flags=['nolc'], cost=30, macro='p')
 add('k1_loops', 'nop_clone', 'nop_clone_h()', props=['C08'], tier='q', cost=2, macro='p')
 B3 = 'real Stack<16> vector of u32 (capacity 4), every state and index in that bound, real copy_bytes unwound'
 add('k1_loops', 'k3_insert_u8', 'k3_insert_h::<u8, 6, 6>()', props=['C01', 'C05'], tier='t', kind='bounded', bound='real Stack<6> vector of u8 (capacity 6), every state and index in that bound, real copy_bytes unwound', attrs=['#[kani::unwind(20)]'], flags=['nolc'], cost=40, macro='p')
